@@ -75,3 +75,68 @@ class Engine(object):
 
     def reach_missing(self, prop, tier, probes, faults):
         return []
+
+
+class MultiEngine(Engine):
+    '''
+    One property decided by several engines: run index i goes to engine
+    i mod n; the case records which engine made it, so replay is unambiguous.
+    '''
+    def __init__(self, name, props, parts):
+        self.name = name
+        self.props = props
+        self.parts = parts
+
+    def setup(self, prop, tier):
+        for e in self.parts:
+            e.setup(prop, tier)
+
+    def plan(self, prop, tier):
+        plans = [e.plan(prop, tier) for e in self.parts]
+        p = dict(plans[0])
+        p['runs'] = sum(pl['runs'] for pl in plans) // len(plans)
+        return p
+
+    def generate(self, prop, seed, tier, idx):
+        e = self.parts[idx % len(self.parts)]
+        case = e.generate(prop, seed, tier, idx // len(self.parts))
+        case['engine'] = e.name
+        case['multi'] = self.name
+        return case
+
+    def execute(self, case):
+        for e in self.parts:
+            if e.name == case['engine']:
+                return e.execute(case)
+        raise ValueError('no part engine %r' % case['engine'])
+
+    def sample(self, case):
+        for e in self.parts:
+            if e.name == case['engine']:
+                return e.sample(case)
+
+    def describe(self, prop):
+        ds = [e.describe(prop) for e in self.parts]
+        d = dict(ds[0])
+        d['rule'] = ' || '.join('[%s] %s' % (e.name, x['rule']) for e, x in zip(self.parts, ds))
+        comp = {'real': [], 'stub': [], 'oracle': []}
+        for x in ds:
+            for k in comp:
+                for item in x['components'].get(k, []):
+                    if item not in comp[k]:
+                        comp[k].append(item)
+        d['components'] = comp
+        d['assumptions'] = sorted(set(a for x in ds for a in x.get('assumptions', [])))
+        return d
+
+    def relax_for_confirmation(self, case):
+        for e in self.parts:
+            if e.name == case['engine']:
+                return e.relax_for_confirmation(case)
+        return case
+
+    def reach_missing(self, prop, tier, probes, faults):
+        out = []
+        for e in self.parts:
+            out += e.reach_missing(prop, tier, probes, faults)
+        return out
